@@ -2132,7 +2132,7 @@ class GeneratedList(HoldableObject):
 
     def __post_init__(self) -> None:
         self.name = self.generator.exe
-        self.depends: T.Set[BuildTarget | GeneratedTypes] = set()
+        self.depends: OrderedSet[BuildTarget | GeneratedTypes] = OrderedSet()
         self.infilelist: T.List[FileMaybeInTargetPrivateDir] = []
         self.outfilelist: T.List[str] = []
         self.outmap: T.Dict[FileMaybeInTargetPrivateDir, T.List[str]] = {}
